@@ -59,7 +59,9 @@ Ante(c, e) ==
     [] OTHER -> TRUE
 
 SigOf(c, e) ==
-  IF c \in {"C16_Sync", "C16_Error"} /\ st.lateHs THEN "HandshakeOkAfterFirstWrite" ELSE ""
+  \* under F12 the host is one acknowledgement behind for the rest of the connection: that also lets disconnect(wait=True)
+  \* return while the device's last acknowledgement is still on its way
+  IF c \in {"C16_Sync", "C16_Error", "C16_Disconnect"} /\ st.lateHs THEN "HandshakeOkAfterFirstWrite" ELSE ""
 
 NextSt(e) ==
   CASE e.k = "call" -> [st EXCEPT !.calls = Append(st.calls, e.text)]
